@@ -74,3 +74,36 @@ Definition f_check (tol : Qc) (c : fcase) : list nat :=
   let model x := vscale GR (f_scale c) (nd_fwd (f_s2 c) (f_dims c) (f_specs c) x) in
   (if forallb (fun p => gvclose tol (snd p) (model (gunit n (fst p)))) (f_cols c) then [] else [1%nat]) ++
   (if forallb (fun p => gvclose tol (snd p) (model (fst p))) (f_vecs c) then [] else [2%nat]).
+
+(* ---- Haar DWT: implementation matrix vs the model of Ops/Haar.v executed
+   EXACTLY in Q(sqrt 2) (c = sqrt2/2); a + b sqrt2 is mapped to Qc with a
+   60-bit rational sqrt 2 only for the tolerance comparison ---- *)
+From PV Require Import Haar.
+Definition alongP {A} (d0 : A) (pre n post m : nat) (f : list A -> list A) (x : list A) : list A :=
+  let fibres := map (fun pq => let p := (pq / post)%nat in let q := (pq mod post)%nat in
+                       f (map (fun i => nth ((p * n + i) * post + q) x d0) (seq 0 n)))
+                    (seq 0 (pre * post)) in
+  map (fun idx => let p := (idx / (m * post))%nat in let r := (idx mod (m * post))%nat in
+                  let k := (r / post)%nat in let q := (r mod post)%nat in
+                  nth k (nth (p * post + q) fibres []) d0)
+      (seq 0 (pre * m * post)).
+Definition q2emb (a : Qc) : Q2 := (a, 0%Qc).
+Definition q2app (r2 : Qc) (a : Q2) : Qc := (fst a + snd a * r2)%Qc.
+Record hcase := { h_id : nat; h_dims : list nat; h_ax : nat; h_L : nat; h_r2 : Qc;
+  h_cols : list (nat * list Qc);          (* (j, Op e_j) *)
+  h_vecs : list (list Qc * list Qc);      (* (x, Op x) *)
+  h_adj : list (list Qc * list Qc) }.     (* (y, Op^H y) *)
+Definition haar_fwd_nd (c : hcase) (x : list Qc) : list Qc :=
+  let dims := h_dims c in let a := h_ax c in
+  let pre := prodl (firstn a dims) in let n := nth a dims 0%nat in let post := prodl (skipn (S a) dims) in
+  map (q2app (h_r2 c)) (alongP q2_0 pre n post (padlen n (h_L c)) (dwt_fwd Q2S q2c (h_L c)) (map q2emb x)).
+Definition haar_adj_nd (c : hcase) (y : list Qc) : list Qc :=
+  let dims := h_dims c in let a := h_ax c in
+  let pre := prodl (firstn a dims) in let n := nth a dims 0%nat in let post := prodl (skipn (S a) dims) in
+  map (q2app (h_r2 c)) (alongP q2_0 pre (padlen n (h_L c)) post n (dwt_adj Q2S q2c (h_L c) n) (map q2emb y)).
+Definition qunit (n j : nat) : list Qc := map (fun i => if Nat.eqb i j then 1%Qc else 0%Qc) (seq 0 n).
+Definition h_check (tol : Qc) (c : hcase) : list nat :=
+  let n := prodl (h_dims c) in
+  (if forallb (fun p => vclose tol (snd p) (haar_fwd_nd c (qunit n (fst p)))) (h_cols c) then [] else [1%nat]) ++
+  (if forallb (fun p => vclose tol (snd p) (haar_fwd_nd c (fst p))) (h_vecs c) then [] else [2%nat]) ++
+  (if forallb (fun p => vclose tol (snd p) (haar_adj_nd c (fst p))) (h_adj c) then [] else [3%nat]).
